@@ -386,7 +386,11 @@ Section Eval.
                     | Some n => match lookup_frame scope n with Some _ => [] | None => [(n, this)] end
                     | None => []
                     end in
-        let inp := match lookup fr "inputs" with Some i => [("inputs", i)] | None => [] end in
+        (* the caller's `inputs`, unless a value of that name was captured at creation (F9 repaired) *)
+        let inp := match lookup_frame scope "inputs" with
+                   | Some _ => []
+                   | None => match lookup fr "inputs" with Some i => [("inputs", i)] | None => [] end
+                   end in
         match bind_params params 0 args (inp ++ self) with
         | None => (Panic, st)
         | Some local =>
